@@ -376,3 +376,13 @@ CLAIMED.update({
          "note": STD_NOTE + ORDER_NOTE + " Typed evaluation (engine/prog.py tevalx) models LP64 integer conversions.",
          "technique": "static analysis: typed evaluation of the extracted frame-header decoder over header/length/presence domains against the RFC 6455 framing rule (K6), bounds via presence of read bytes (K4), caller ordering (K3)"},
 })
+CLAIMED.update({
+ "C46": {"level": "other",
+         "text": "evutil_weakrand_range_ evaluated with C integer semantics over top in {1,2,3,7,100,2^20,2^30,2^31-1} x boundary generator outputs: only values in [0,top) are returned, "
+                 "out-of-range quotients are redrawn; the generator state is masked to 31 bits; at every caller `top` is positive on the path and is the same quantity that bounds the "
+                 "use of the result (the poll/select scans wrap at, visit, and pass to the system call the very variable the start index was drawn from — not a live counter another "
+                 "thread may have advanced; the rate-limit group picks among n_members only when non-zero); evutil_secure_rng_get_bytes forwards its arguments unchanged. "
+                 "Declined: bounded running time for every generator state, statistical quality.",
+         "note": STD_NOTE + ORDER_NOTE,
+         "technique": "static analysis: typed evaluation of the range reduction on boundary values (K6), argument/bound agreement and dominating positivity guards at call sites (K8/K4)"},
+})
